@@ -67,16 +67,26 @@ def payload(kind, rng, ident):
     if kind == "big_binary_one_line":
         data = rng.randbytes(rng.choice([150 * 1024, 400 * 1024])).replace(b"\n", b"\x00") + b"\n"
         return [chunk(data[i:i + 65536]) for i in range(0, len(data), 65536)], data
+    if kind == "short_then_long":
+        # short lines followed by lines far beyond any internal batching threshold, written in one go
+        parts = [tag + b" start\n", tag + b" two\n", tag + b"S" * 48000 + b"\n", tag + b" mid\n", tag + b"T" * 70000 + b"\n",
+                 tag + b"U" * 33000 + b"\n", tag + b" end\n"]
+        data = b"".join(parts)
+        return [chunk(data)], data
+    if kind == "megabytes_text":
+        line = tag + b" " + b"0123456789abcdef" * 6 + b"\n"
+        data = line * (3 * 1024 * 1024 // len(line))
+        return [chunk(data[i:i + 262144]) for i in range(0, len(data), 262144)], data
     if kind == "empty":
         return [], b""
     raise ValueError(kind)
 
 
 KINDS = ["text", "no_trailing_newline", "pause_mid_line", "pause_mid_line_twice", "binary", "long_line", "many_short",
-         "byte_at_a_time", "empty", "big_incompressible", "big_binary_one_line"]
+         "byte_at_a_time", "empty", "big_incompressible", "big_binary_one_line", "short_then_long"]
 
 
-def e2e_scenario(bins, idx, ntargets, rng, kinds=None):
+def e2e_scenario(bins, idx, ntargets, rng, kinds=None, failing=False):
     names = runlib.NAMES
     targets = [{"path": names[i % len(names)] + ("" if i < len(names) else str(i))} for i in range(ntargets)]
     fx = fixture.Fixture(bins, targets)
@@ -101,7 +111,11 @@ def e2e_scenario(bins, idx, ntargets, rng, kinds=None):
                     merged.append(a.pop(0))
                 else:
                     merged.append(b.pop(0))
-            merged.append({"op": "exit", "code": 0})
+            # in a failing scenario the last target exits non-zero after writing everything (it still ran to completion)
+            is_failing = failing and t is targets[-1]
+            if is_failing:
+                merged.insert(0, {"op": "sleep", "ms": 50})
+            merged.append({"op": "exit", "code": 3 if is_failing else 0})
             fx.add_cmd(t["path"], "build", merged, ext=".sh")
         fx.git_init()
         res = fx.monorail(["run", "-c", "build"], timeout=240)
@@ -109,6 +123,13 @@ def e2e_scenario(bins, idx, ntargets, rng, kinds=None):
         run_dir = None
         if isinstance(res["out"], dict) and "out" in res["out"]:
             run_dir = res["out"]["out"]["run"]["path"]
+        completed = set()
+        if isinstance(res["out"], dict):
+            for cr in res["out"].get("results", []):
+                for g in cr.get("target_groups", []):
+                    for tp, v in g.items():
+                        if v.get("status") == "success" or (v.get("status") == "error" and v.get("code") is not None):
+                            completed.add(tp)
         # log show, all streams
         show = fx.monorail(["log", "show", "--stdout", "--stderr"], timeout=240)
         shown = show["stdout"]
@@ -162,10 +183,10 @@ def e2e_scenario(bins, idx, ntargets, rng, kinds=None):
                             filters_ok = False
                     elif pos >= 0:
                         filters_ok = False
-            tasks.append({"target": runlib.P(tp), "stream": stream, "kind": kind, "ran": True, "written_len": len(data), "filters_ok": filters_ok,
+            tasks.append({"target": runlib.P(tp), "stream": stream, "kind": kind, "ran": tp in completed, "written_len": len(data), "filters_ok": filters_ok,
                           "stored_len": len(stored) if stored is not None else -1, "stored_equal": eq, "first_diff": first_diff,
                           "foreign": foreign, "shown": shown_flag, "show_equal": show_eq})
-        return {"ev": "e2e", "scenario": idx, "rc": res["rc"] if res["rc"] is not None else -9, "want_rc": 0, "tasks": tasks,
+        return {"ev": "e2e", "scenario": idx, "rc": res["rc"] if res["rc"] is not None else -9, "want_rc": 1 if failing else 0, "tasks": tasks,
                 "stderr": res["stderr"].decode("utf-8", "replace")[-300:]}
     finally:
         fx.cleanup()
@@ -218,6 +239,11 @@ def run(pid, tier):
             return e2e_scenario(bins, i, 3, rr, kinds=["pause_mid_line", "pause_mid_line_twice", "byte_at_a_time"])
         if i == 1:
             return e2e_scenario(bins, i, 2, rr, kinds=["big_incompressible", "big_binary_one_line", "no_trailing_newline"])
+        if i == 2:
+            return e2e_scenario(bins, i, 2, rr, kinds=["short_then_long"])
+        if i in (3, 4):
+            # a group in which one task fails while megabytes of output are still queued for the compressor
+            return e2e_scenario(bins, i, 6 if i == 3 else 3, rr, kinds=["megabytes_text", "big_incompressible", "text"], failing=True)
         return e2e_scenario(bins, i, sizes[i % len(sizes)], rr)
     with ThreadPoolExecutor(max_workers=6) as ex:
         e2e = list(ex.map(one, range(ne)))
